@@ -90,3 +90,62 @@ CHECKS["C12"] = dict(
     assumptions=["field/details label vocabulary is taken from the implementation's metric labels", "hop limit 0 on either side is a don't-care region (RFC exempts it, the statement does not)"],
     parts=[dict(name="verify", pkg="internal/corerad", test="TestVerifC12", shards=S16)],
 )
+
+DET = dict(gomaxprocs=1, gogc_off=True)
+
+CHECKS["C06"] = dict(
+    level="exploration",
+    technique="runtime monitoring: virtual-time (testing/synctest) trace monitor of the real Advertiser behind a fake socket; spacing and bounded-response oracles over bounded-exhaustive trigger histories; race detector pass",
+    rule="histories of router solicitations (from :: = multicast trigger, or from a unicast source) injected at exact virtual instants into the real Advertiser; deterministic pass: all histories of ≤3 events (quick) / ≤5 events "
+         "(thorough) on a grid of offsets {0,1ms,1.5s,3s−1ms,3s,3s+1ms,4.5s,6s,6s+1ms} from the previous event, anchored at the initial RA and at the 16 s periodic tick, plus seeded random bursts of 5–60 events in both periodic regimes with a "
+         "re-initialisation inside 1/4 of them; parallel pass (GOMAXPROCS 4, -race): random histories, schedule-insensitive oracles only; non-trivial = two triggers <3 s apart or a trigger <3 s after a transmission; distinct = history",
+    exhaustive={"quick": True, "thorough": True},
+    assumptions=["testing/synctest fake clock (GODEBUG=asynctimerchan=0); zero injected latency, so the oracle needs no tolerance",
+                 "periodic tick instants are known by configuration (min>16s ⇒ 0/16/32/48 s; min=max ⇒ every max s)",
+                 "timing oracles are asserted only at GOMAXPROCS=1 because the dependency mdlayher/schedgroup v1.0.0 has a lost wake-up under real parallelism (DESIGN.md K1)"],
+    parts=[
+        dict(name="det", pkg="internal/corerad", test="TestVerifC06", shards=S16, env={"VERIF_PART": "det"}, **DET),
+        dict(name="race", pkg="internal/corerad", test="TestVerifC06", race=True, shards=S4, gomaxprocs=4, env={"VERIF_PART": "race", "VERIF_TIMING": "0"}),
+    ],
+)
+
+def vparts(test, det_part="det", race_shards=None, extra_env=None):
+    e1 = {"VERIF_PART": det_part}
+    e2 = {"VERIF_PART": "race", "VERIF_TIMING": "0"}
+    if extra_env:
+        e1.update(extra_env); e2.update(extra_env)
+    return [
+        dict(name=det_part, pkg="internal/corerad", test=test, shards=S16, env=e1, **DET),
+        dict(name="race", pkg="internal/corerad", test=test, race=True, shards=race_shards or S4, gomaxprocs=4, env=e2),
+    ]
+
+VT = ["testing/synctest fake clock (GODEBUG=asynctimerchan=0); fakes at system.Conn / system.State / Dialer.DialFunc / log writer; static-only configurations (wildcards need a kernel: tier R)",
+      "exact timing oracles are asserted only in the deterministic pass (GOMAXPROCS=1, GOGC=off); the -race pass (GOMAXPROCS=4) asserts schedule-insensitive oracles only, because the dependency schedgroup v1.0.0 has a lost wake-up under parallelism (DESIGN.md K1)"]
+
+CHECKS["C07"] = dict(
+    level="exploration",
+    technique="runtime monitoring: virtual-time trace monitor of the real Advertiser; exactly-once matching of unicast answers to solicitations, destination and delay oracle, counter-conservation check; race detector pass",
+    rule="seeded histories of 5–40 router solicitations from unique link-local, unique global, repeated and unspecified sources, with/without SLLA, Poisson and burst arrivals (≥17 in one instant), interleaved with periodic RAs in "
+         "two tick regimes, unicast_only in 1/3, a failing transmission in 1/8; every unicast RA must match one pending solicitation from its destination within [0,500ms); counters are compared with the trace after Run returned; "
+         "non-trivial = every history (all contain ≥5 solicitations); distinct = history id (seeded)",
+    assumptions=VT + ["the extremes 0 and 499.999999 ms of the random delay cannot be forced from the boundary; observed min/max delays are reported"],
+    parts=vparts("TestVerifC07"),
+)
+CHECKS["C08"] = dict(
+    level="exploration",
+    technique="runtime monitoring: virtual-time trace monitor of Advertiser shutdown with the stop request placed inside in-flight operations through seam hooks; final-RA-last / none-on-reload / silent-after-return oracles; race detector pass",
+    rule="stop instants in five classes — idle, response pending in its delay, transmission in flight (stop request issued from inside the worker's State read or socket write, 1–5 ms latencies), periodic transmission in flight at the 16 s tick, "
+         "solicitation in the same instant as the request — × terminate/reload × unicast_only (1/8); the class is confirmed from the trace; non-trivial = trace class other than idle; distinct = scenario id (seeded)",
+    assumptions=VT + ["configurations with default_lifetime 0 or forwarding off are excluded from the final-RA clauses (every RA has lifetime 0 there)"],
+    parts=vparts("TestVerifC08"),
+    require_counters={"quick": {"class_in-flight": 20, "class_pending": 20, "class_concurrent-rs": 10}, "thorough": {"class_in-flight": 200}},
+)
+CHECKS["C09"] = dict(
+    level="exploration",
+    technique="runtime monitoring: virtual-time trace monitor of the real Advertiser and Monitor fed scripted invalid/valid message sequences; invalid-counter, no-side-effect and continued-service oracles; race detector pass",
+    rule="exhaustive hop limit 0…255 × {RS, RA, NS, NA} single-message scenarios each followed by a valid RS; runs of k=1…12 consecutive invalid messages (retry budget is 5) in 6 mixes; seeded random sequences mixing valid RS/RA, invalid "
+         "messages and ≤3 consecutive read time-outs; same for the monitor (part mon); non-trivial = ≥1 invalid message delivered; distinct = scenario id",
+    exhaustive={"quick": True, "thorough": True},
+    assumptions=VT,
+    parts=vparts("TestVerifC09"),
+)
